@@ -398,7 +398,7 @@ def run_obligation_one(prop, o, tier, bind):
             ex.uf_mul = o["uf_mul"]
         if o.get("prune"):
             from . import prune as _prune, execmir as _em
-            _em.PRUNER = _prune.Pruner()
+            _em.PRUNER = _prune.Pruner(budget_s=(o.get("realise_budget_s", 420) if (bind and bind.get("__realising")) else o.get("prune_budget_s", 1800)))
             st.pc = list(pre)  # the pruner needs the precondition on the path
         try:
             paths = ex.run(fn, argvals, st)
